@@ -39,6 +39,7 @@ type cfg struct {
 	ExtraTelem  bool // telemetry batch carries other records around runtimeDone, and one batch without it
 	InitFail    bool // start-up path: server.Run fails
 	TelemFail   bool // start-up path: the server is healthy but the telemetry listener cannot be bound
+	Wired       bool // the forwarder is built the way the lambda-extension command builds it (NewServer from a configuration that also lists a dynamic header, then the server's own constructor); the datapoints of one invocation carry two values of that tag
 	BadSet      bool // the function also sends a set member that is not valid UTF-8 (a binary id) in every batch
 	SlowSub     bool // with InitFail: per-invocation flushing enabled and the telemetry subscription takes >= 100 ms
 }
@@ -47,7 +48,7 @@ func (c cfg) String() string {
 	if c.TelemFail {
 		return "telemetry-listener-fails"
 	}
-	return fmt.Sprintf("N%d-b%v-f%d-el%v-x%v-init%v-slowsub%v", c.Invocations, c.Batches, c.Failures, c.Elapsed, c.ExtraTelem, c.InitFail, c.SlowSub) + map[bool]string{true: "-badset"}[c.BadSet]
+	return fmt.Sprintf("N%d-b%v-f%d-el%v-x%v-init%v-slowsub%v", c.Invocations, c.Batches, c.Failures, c.Elapsed, c.ExtraTelem, c.InitFail, c.SlowSub) + map[bool]string{true: "-badset"}[c.BadSet] + map[bool]string{true: "-wired"}[c.Wired]
 }
 
 type run struct {
@@ -55,9 +56,9 @@ type run struct {
 	log       []string
 	obj       *int
 	fwd       *statsd.HttpForwarderHandlerV2
-	injected  []string          // datapoint names in injection order
-	delivered map[string]bool   // datapoint reached the upstream in a successful attempt
-	attempted map[string]int    // attempts whose body contained the datapoint
+	injected  []string        // datapoint names in injection order
+	delivered map[string]bool // datapoint reached the upstream in a successful attempt
+	attempted map[string]int  // attempts whose body contained the datapoint
 	failsLeft int
 	nextReqs  int
 	flushes   int
@@ -289,6 +290,25 @@ func body(c cfg, r *run) func(*vsched.Exec) {
 		if err != nil {
 			panic(err)
 		}
+		if c.Wired {
+			// this harness is compiled into cmd/lambda-extension: NewServer is the command's own
+			lv := viper.New()
+			lv.Set(gostatsd.ParamLambdaExtensionManualFlush, true)
+			lv.Set("http-transport", map[string]any{"api-endpoint": "http://up.invalid", "consolidator-slots": 1, "max-requests": 2, "concurrent-merge": 1, "compress": false,
+				"max-request-elapsed-time": c.Elapsed, "flush-interval": time.Second, "dynamic-headers": []string{"region"}})
+			srv := NewServer(lv, fx.Quiet())
+			if srv.ForwarderFlushCoordinator == nil {
+				panic("lambda-extension NewServer: manual flush requested, no flush coordinator")
+			}
+			fc = coord{srv.ForwarderFlushCoordinator, r}
+			shc, _ := srv.TransportPool.Get("default")
+			shc.Client.Transport = upstream{r}
+			shc.Client.Timeout = 0
+			h, err = statsd.NewHttpForwarderHandlerV2FromViper(fx.Quiet(), srv.Viper, srv.TransportPool, fc) // what Server.createForwarderSink does
+			if err != nil {
+				panic(err)
+			}
+		}
 		r.fwd = h
 		m := extension.VerifNew("lambda.invalid", runtimeAPI{r}, fx.Quiet(), fwdServer{h}, fc, true)
 		if err := m.Register(ctx); err != nil {
@@ -315,7 +335,11 @@ func body(c cfg, r *run) func(*vsched.Exec) {
 				for b := 0; b < nb; b++ {
 					name := fmt.Sprintf("i%db%d", k, b)
 					mm := gostatsd.NewMetricMap(false)
-					mm.Receive(&gostatsd.Metric{Name: name, Type: gostatsd.COUNTER, Value: 1, Rate: 1, Timestamp: 5})
+					var tags gostatsd.Tags
+					if c.Wired {
+						tags = gostatsd.Tags{[]string{"region:us", "region:eu"}[b%2]}
+					}
+					mm.Receive(&gostatsd.Metric{Name: name, Type: gostatsd.COUNTER, Value: 1, Rate: 1, Tags: tags, Timestamp: 5})
 					if c.BadSet {
 						mm.Receive(&gostatsd.Metric{Name: "ids", Type: gostatsd.SET, StringValue: "id\xff\xfe", Rate: 1, Timestamp: 5})
 					}
@@ -385,14 +409,15 @@ func configs() []cfg {
 		{Invocations: 1, Batches: []int{1}, Failures: 3, Elapsed: time.Second},
 		{Invocations: 2, Batches: []int{1, 1}, Failures: 1, Elapsed: -1},
 		{Invocations: 2, Batches: []int{1, 1}, Failures: 1, Elapsed: time.Second, BadSet: true},
+		{Invocations: 2, Batches: []int{2, 1}, Failures: 0, Elapsed: time.Second, Wired: true},
 		{InitFail: true},
 		{InitFail: true, SlowSub: true},
 		{TelemFail: true},
-		{Invocations: 3, Batches: []int{1, 2, 1}, Failures: 2, Elapsed: time.Second, ExtraTelem: true},
+		{Invocations: 2, Batches: []int{2, 1}, Failures: 2, Elapsed: time.Second, ExtraTelem: true},
 		{Invocations: 3, Batches: []int{0, 1, 0}, Failures: 1, Elapsed: -1},
 	}
 	if vrt.Thorough() {
-		cs = append(cs, cfg{Invocations: 4, Batches: []int{2, 1, 2, 1}, Failures: 4, Elapsed: time.Second, ExtraTelem: true}, cfg{Invocations: 3, Batches: []int{2, 2, 2}, Failures: 6, Elapsed: 3 * time.Second})
+		cs = append(cs, cfg{Invocations: 3, Batches: []int{1, 2, 1}, Failures: 2, Elapsed: time.Second, ExtraTelem: true}, cfg{Invocations: 4, Batches: []int{2, 1, 2, 1}, Failures: 4, Elapsed: time.Second, ExtraTelem: true}, cfg{Invocations: 3, Batches: []int{2, 2, 2}, Failures: 6, Elapsed: 3 * time.Second})
 	}
 	return cs
 }
